@@ -969,8 +969,8 @@ func advanceBelowSize(a *ringAnch, f *fn, node ast.Node, cur *types.Var) bool {
 	}
 	for bv, def := range bounds {
 		const (
-			fDef = 1 << iota // bv == size - cursor
-			fLess            // step < bv
+			fDef  = 1 << iota // bv == size - cursor
+			fLess             // step < bv
 		)
 		p := &flow.Problem{Must: true}
 		p.Node = func(b *flow.Block, i int, n ast.Node, in uint64) uint64 {
